@@ -30,10 +30,14 @@ pub mod mpsc {
     impl<T> UnboundedReceiver<T> {
         pub uninterp spec fn received(&self) -> Seq<T>;
         pub uninterp spec fn closed(&self) -> bool;
+        /// `parked()`: the most recent poll_recv returned Pending — and only then has the task's waker been registered
+        /// with the channel, so that a later message wakes it (tokio)
+        pub uninterp spec fn parked(&self) -> bool;
 
         #[verifier::external_body]
         pub fn poll_recv(&mut self, cx: &mut Context<'_>) -> (r: Poll<Option<T>>)
             ensures
+                final(self).parked() == (r is Pending),
                 r matches Poll::Ready(Some(v)) ==> final(self).received() == old(self).received().push(v) && final(self).closed() == old(self).closed(),
                 r matches Poll::Ready(None) ==> final(self).received() == old(self).received() && final(self).closed(),
                 r is Pending ==> final(self).received() == old(self).received() && final(self).closed() == old(self).closed(),
@@ -250,7 +254,9 @@ impl ArbiterRunner {
         r is Ready ==> final(self).rx.closed()
             || (final(self).rx.received().len() > 0 && is_stop(final(self).rx.received()[final(self).rx.received().len() - 1])),
         r is Pending ==> final(self).alive(),
-//@loop head="loop"
+        // the Future contract: Pending is returned only with a wake-up arranged — the channel has the waker   [C09,C10]
+        r is Pending ==> final(self).rx.parked(),   // [C09,C10]
+//@loop 1
         invariant
             self.alive(),
             old(self).rx.received().len() <= self.rx.received().len(),
